@@ -493,7 +493,7 @@ def fn_fingerprint(f):
         file = inspect.getsourcefile(f0)
         line = inspect.getsourcelines(f0)[1]
         return dict(function=f"{getattr(f0, '__module__', '?')}.{getattr(f0, '__qualname__', repr(f0))}",
-                    where=f"{os.path.relpath(file, '/repo')}:{line}",
+                    where=f"{os.path.relpath(file, os.environ.get('VERIF_REPO', '/repo'))}:{line}",
                     sha256=hashlib.sha256(src.encode()).hexdigest()[:16])
     except Exception as ex:
         return dict(function=repr(f), where="?", sha256="?", note=repr(ex))
